@@ -7,6 +7,7 @@ import Pfl.Model.BarHillel
 import Pfl.Model.CFGCounters
 import Pfl.Model.Codec
 import Pfl.Model.LL1Lib
+import Pfl.Model.RecDescent
 import PflDrv.FA
 open Lean Pfl
 namespace PflDrv
@@ -92,6 +93,14 @@ def cfgHandle (op : String) (j : Json) : R Json := do
           | some none => Json.null
           | some (some t) => jTree t) ws)])
     | _, _, _, _ => throw "fuel"
+  | "cfg.recDescent" =>   -- faithful model of RecursiveDecentParser
+    let ws ← (← asArr (← field j "words")).mapM asStrList
+    let left ← asBool (← field j "left")
+    let fuel ← asNat (← field j "fuel")
+    pure (jList (fun w => match RecDescent.parse G w left fuel with
+      | none => jStr "fuel"
+      | some none => Json.null
+      | some (some t) => jTree t) ws)
   | "cfg.counters" =>
     let nullable ← asBool (← field j "nullable")
     let (rem, imp, added) := G.buildTables
